@@ -1,7 +1,9 @@
 package main
 
 import (
+	"6502profiler/commands"
 	"6502profiler/emuconfig"
+	"6502profiler/memory"
 	"bufio"
 	"fmt"
 	"os"
@@ -45,7 +47,7 @@ func genCrashCase(r *rng.R, spec string) crashCase {
 		at := []uint16{0x3FFE, 0x7FFD, 0xBFFF, 0xFFFE, 0x0000, 0x9EFE, 0x00F0}[r.Intn(7)]
 		n := 1 + r.Intn(8)
 		c.code = make([]uint8, n)
-		c.model = fmt.Sprintf("%s:%04x", []string{"preload", "copyrun"}[r.Intn(2)], at)
+		c.model = fmt.Sprintf("%s:%04x", []string{"preload", "copyrun", "trapcopy", "traprun"}[r.Intn(4)], at)
 		if r.Chance(30) {
 			// a program FILE of 0..4 bytes (or more) handed to Load / LoadAndRun
 			c.code = make([]uint8, r.Intn(5))
@@ -113,6 +115,46 @@ func runCrashCase(c crashCase) string {
 				return
 			}
 			if _, _, err := p.LoadAndRun(f.Name()); err != nil {
+				res = "error"
+			}
+		}) {
+			res = "hostcrash"
+		}
+		return res
+	}
+	if strings.HasPrefix(c.model, "trapcopy:") || strings.HasPrefix(c.model, "traprun:") {
+		// a trap address INSIDE the image that is loaded: the loader's store to it happens before (verify) or after
+		// (run/profile) a trap function is installed — either way the host must survive
+		var at uint16
+		fmt.Sscanf(c.model[strings.Index(c.model, ":")+1:], "%04x", &at)
+		res := "halt"
+		if protect(func() {
+			p, err := cfg.NewCpu()
+			if err != nil {
+				res = "builderr"
+				return
+			}
+			if strings.HasPrefix(c.model, "trapcopy:") {
+				ph := memory.NewPlaceholderWrapper(p.Mem, at+1)
+				p.Mem = ph.Wrapper
+				if err := p.CopyAndRun(c.code, at); err != nil {
+					res = "error"
+				}
+				return
+			}
+			dir, err := os.MkdirTemp("", "verif-traprun")
+			if err != nil {
+				panic(err)
+			}
+			defer os.RemoveAll(dir)
+			bin := writeFile(dir, "p.bin", append([]byte{uint8(at), uint8(at >> 8)}, c.code...))
+			script := writeFile(dir, "t.lua", []byte("function trap(c) end\n"))
+			ta := uint(at + 1)
+			var e error
+			if _, panicked := captureStdout(func() { _, _, e = commands.LoadAndRunBinary(p, &bin, &ta, &script, true) }); panicked {
+				panic("panic in LoadAndRunBinary")
+			}
+			if e != nil {
 				res = "error"
 			}
 		}) {
